@@ -322,6 +322,9 @@ func generate() {
 	// 2e. a reused Reader whose previous input ENDED IN AN I/O ERROR (line over the 64 KiB token
 	// limit; failing io.Reader), then Reset onto normal inputs: fresh behaviour, Err() nil again
 	afterIOErrors(r)
+	// 2f. long keys: 120..140, 255..257, 300 and ~1000 bytes, ASCII and multi-byte runes; set,
+	// update, delete, and against a Reset label of the same name
+	longKeys()
 	// 3. line grammar, plain and exotic
 	n := hx.N(1500, 40000)
 	for i := 0; i < n; i++ {
@@ -654,5 +657,41 @@ func afterIOErrors(r *hx.Rand) {
 	}
 	for i := hx.N(40, 1000); i > 0; i-- {
 		runReaderAfterIOError("f", genText(r, 1+r.Intn(8), false), genLabels(r), genText(r, 1+r.Intn(6), false))
+	}
+}
+
+func longKeys() {
+	mkKey := func(n int, multi bool) string {
+		if !multi {
+			return "k" + strings.Repeat("y", n-1)
+		}
+		// two-byte runes (é); an odd length gets one ASCII byte in front
+		k := strings.Repeat("é", n/2)
+		if n%2 == 1 {
+			k = "e" + k
+		}
+		return k
+	}
+	var lens []int
+	for n := 120; n <= 140; n++ {
+		lens = append(lens, n)
+	}
+	lens = append(lens, 255, 256, 257, 300, 1000)
+	for _, n := range lens {
+		if hx.Tier() != "thorough" && n > 122 && n < 126 {
+			continue
+		}
+		for _, multi := range []bool{false, true} {
+			k := mkKey(n, multi)
+			text := "BenchmarkStart 1 1 ns/op\n" +
+				k + ": 1\nBenchmarkSet 1 1 ns/op\n" +
+				k + ": 22\nBenchmarkUpdate 1 1 ns/op\n" +
+				k + ":\nBenchmarkDelete 1 1 ns/op\n" +
+				k + ": 3\nshort: x\nBenchmarkReset 1 1 ns/op\n"
+			runReader("lk", []byte(text), "longkey")
+			// the same key as a tool label: the file line must override it, the deletion remove it
+			runReaderInit("lk", []byte(text), []string{k, "label", "short", "label"}, nil, "longkey")
+			runReaderInit("lk", []byte("BenchmarkStart 1 1 ns/op\n"+k+":\nBenchmarkDelete 1 1 ns/op\n"), []string{k, "label"}, nil, "longkey")
+		}
 	}
 }
